@@ -7,6 +7,7 @@ mod c02;
 mod c03;
 mod c04;
 mod c05;
+mod c06;
 mod c07;
 mod agentkit;
 mod c08;
@@ -63,6 +64,7 @@ fn run_lines() {
             "uni" => c16::uni(&mut t),
             "serve" => c16::serve(&mut t),
             "srv" => c05::serve(&mut t),
+            "crash" => c06::crash(&mut t),
             "ltx" => c07::ltx(&mut t),
             "ctx" => c07::ctx(&mut t),
             "partners" => c16::partners(&mut t),
